@@ -4,6 +4,7 @@ From Coq Require Import Strings.String Strings.Byte.
 From Coq Require Import List Arith NArith ZArith Bool.
 From PV Require Import Base.Bytes Base.Outcome Base.KV Proto.Model Did.Model Did.Props.
 From PV Require Import Chain.Model Chain.Run Chain.AolProps Chain.DidProps Chain.ExampleDid.
+From PV Require Chain.AcceptIff.
 Import ListNotations.
 Local Open Scope N_scope.
 
@@ -71,3 +72,12 @@ Example C03_nonvacuous :
   q_did (c_did did_final) D1 = DDeactivated /\
   en_seq (get_entry (c_did did_final) D1) = 3%N.
 Proof. exact did_history_results. Qed.
+
+(** exact characterisation (Chain/AcceptIff.v): an update of an active DID is accepted if and only if the proof is valid —
+    a key listed under authentication in the STORED document, over the new document and the stored sequence *)
+Theorem C03_update_accepted_iff_proof : forall b58key verify st did stored seq doc vmid sig,
+  q_did st did = DFound stored seq ->
+  (exists st', update_did b58key verify marshal_doc st did doc vmid sig = Ok st') <->
+  proof_ok b58key verify stored doc seq vmid sig.
+Proof. exact Chain.AcceptIff.update_did_accepted_iff_proof. Qed.
+Print Assumptions C03_update_accepted_iff_proof.
